@@ -13,7 +13,7 @@ META = {
     "outside": profiles.OUTSIDE,
 }
 
-REQUIRED_COVERS = {"any": profiles.REQUIRED["C02"]}
+REQUIRED_COVERS = {"any": profiles.REQUIRED["C02"] + ["insert-into-remaining-log"]}
 
 CROSSCHECK = {"thorough": 8}
 
@@ -23,5 +23,45 @@ def sim(p, ctx):
     oracles.c02(M, ctx)
 
 
+def sim_history(p, ctx):
+    from props.simcore import run_sim_history
+
+    M = run_sim_history(p, ctx, p["mode"])
+    if M.exc is None:
+        oracles.c02(M, ctx)
+
+
+def sim_then_insert(p, ctx):
+    """The remaining-work log stays truthful when absence steps are inserted afterwards: an inserted step repeats the value
+    before it (the initial remaining work w*(1-progress) for step 0); every other entry is unchanged."""
+    M = run_sim(p, ctx)
+    if M.exc is not None:
+        return
+    before = [list(t.remaining_work_amount_record_list) for t in M.tasks]
+    T = M.project.time
+    i0 = p["i0"]
+    ok, r = ctx.call(M.project.insert_absence_time_list, [i0])
+    if not ok:
+        ctx.aborted = "insert raised"
+        return
+    ic = ctx.c(i0)
+    if ic >= T:
+        return
+    for ti, t in enumerate(M.tasks):
+        log = t.remaining_work_amount_record_list
+        exp_ins = M.work[ti] * (1 - M.prog[ti] / 2) if ic == 0 else before[ti][ic - 1]
+        if len(log) != len(before[ti]) + 1:
+            ctx.fail("C02:insert:remaining-log-length")
+        elif log[ic] != exp_ins:
+            ctx.fail("C02:insert:inserted-step-changes-remaining-work")
+        elif log[:ic] + log[ic + 1:] != before[ti]:
+            ctx.fail("C02:insert:other-entries-changed")
+    ctx.cover("insert-into-remaining-log")
+
+
 def obligations(tier, seed):
-    return profiles.obligations_for("C02", tier)
+    obs = profiles.obligations_for("C02", tier)
+    for ob in profiles.p_progress_auto(wmax=3, H=8, timeout=600 if tier == "thorough" else 150):
+        if "auto=00" in ob["name"]:
+            obs.append(dict(ob, harness="sim_then_insert", name="insert/" + ob["name"], params=ob["params"] + [["i0", 0, 3]], engine="zsym"))
+    return obs
